@@ -80,6 +80,10 @@ class _FieldOfDressed:
             dressed_new._xobject = getattr(container._xobject, self.name)
         else:
             self.content = None
+            if isinstance(
+                getattr(container._XoStruct, self.name).ftype, Ref
+            ) and hasattr(container, "_dressed_" + self.name):
+                delattr(container, "_dressed_" + self.name)
             setattr(container._xobject, self.name, value)
 
 
